@@ -8,8 +8,11 @@ import time
 from pathlib import Path
 
 ROOT = Path(__file__).resolve().parent.parent
-OUT = ROOT / "out"
-EVID = ROOT / "evidence"
+# a run against a scratch copy of bluesky (VERIF_REPO_SRC = <worktree>/src: seeded changes) keeps its output, caches and evidence
+# apart from those of the tree under verification: /verif/evidence is only ever written by runs against /repo itself
+_SCRATCH = os.environ.get("VERIF_REPO_SRC", "/repo/src").rstrip("/") != "/repo/src"
+OUT = Path(os.environ["VERIF_OUT"]) if os.environ.get("VERIF_OUT") else ROOT / ("out/scratch" if _SCRATCH else "out")
+EVID = OUT / "evidence" if _SCRATCH else ROOT / "evidence"
 KF_FILE = ROOT / "KNOWN_FINDINGS.json"
 REPO = Path(os.environ.get("VERIF_REPO", "/repo"))
 
@@ -113,7 +116,7 @@ class Ctx:
             "coverage": cov, "assumptions": self.assumptions, "wall_s": round(wall, 2),
             "violations": len(self.violations),
         }
-        EVID.mkdir(exist_ok=True)
+        EVID.mkdir(parents=True, exist_ok=True)
         (EVID / f"{self.prop}.json").write_text(json.dumps(ev, indent=1, default=str) + "\n")
         for f in open_f:
             if f["id"] in self.known_seen:
